@@ -52,6 +52,11 @@ func presentations() []presentation {
 		{"authorization+forward-marker", true, func(t string) map[string]string {
 			return map[string]string{"Authorization": "Bearer " + t, "x-piko-forward": "true"}
 		}},
+		// no tenants are configured anywhere here: naming one is refused, and the
+		// refusal really stops the request (sentinel untouched)
+		{"authorization+unknown-tenant", false, func(t string) map[string]string {
+			return map[string]string{"Authorization": "Bearer " + t, "x-piko-tenant-id": "t9"}
+		}},
 	}
 }
 
